@@ -141,6 +141,32 @@ def run(ctx: Ctx) -> None:
         v = outs[0].value.get("name") if outs and outs[0].kind == "return" else None
         ctx.check(v == SStr([Atom("second", free=True)]), "B2", f"duplicate keyword keeps its last value, flags {flags}", repo.loc("transformer", repo.func("transformer.MapfileTransformer.composite")), "", f"NAME given twice yields {v!r} with position={flags[0]} comments={flags[1]}")
 
+    # ---- B7 the text that reaches the lexer ---------------------------------------------------------------
+    ctx.rule("B7", "Parser.parse hands the lexer the very text it was given, whatever include_comments says (evaluated with a recording stand-in for lark, on text of unknown content holding \\r\\n and U+2028 line breaks): quoted values that span lines, and every position, are the same with and without the bookkeeping", 2)
+    lp = repo.loc("parser", repo.func("parser.Parser.parse"))
+    seen_text = {}
+    for ic in (False, True):
+        rec7: dict = {}
+
+        def hook7(fr, recv, name, args, kwargs, node, rec7=rec7):
+            if isinstance(recv, SObj) and recv.pytype == "Lark" and name == "parse_interactive":
+                rec7["text"] = args[0]
+                return recv.attrs["_ip"]
+            if isinstance(recv, SObj) and recv.pytype == "InteractiveParser":
+                if name == "iter_parse":
+                    return []
+                if name == "resume_parse":
+                    return SObj("Tree", {"data": "start", "children": []})
+            return NotImplemented
+
+        I7 = e.interp(stubs={"hook:method": hook7, "parser.Parser._assign_comments": lambda I_, so, a, k: None}, allow_fork=False)
+        text7 = SStr([Atom("head", free=True), "\r\n", Atom("value with any character", free=True), "\u2028", Atom("tail", free=True), "\n"])
+        outs = I7.explore("parser.Parser.parse", lambda ic=ic: (models.new_parser(I7, expand_includes=False, include_comments=ic), [text7], {}))
+        if len(outs) != 1 or outs[0].kind != "return" or "text" not in rec7:
+            raise AnalysisError(f"Parser.parse not evaluable with the recording lark stand-in (include_comments={ic}): {[(o.kind, o.exc) for o in outs]}")
+        seen_text[ic] = rec7["text"]
+        ctx.check(rec7["text"] == text7, "B7", f"include_comments={ic}: text handed to the lexer", lp, "the text as given", f"with include_comments={ic} the lexer receives {rec7['text']!r} for the text {text7!r}: line breaks inside values are rewritten, so the loaded values differ from a plain load")
+
     # ---- B6 composed: what the transformer builds under the flags, printed ---------------------------------
     ctx.rule("B6", "a LAYER built by composite() under include_comments / include_position from attributes of which only some carry comments (a keyword, a repeated keyword given three times) prints, comment pieces apart, the lines of the plain LAYER", 3)
     from .. import printer as _pr
